@@ -803,6 +803,13 @@ func evmKeeperFacts(keeper, vm, utils *packages.Package) {
 	}
 	// EstimateGas: how the search bound `hi` and the remembered cap `gasCap` are assigned
 	facts["estimateGasAssigns"] = assignOrder(findMethod(keeper, "Keeper", "EstimateGas"), map[string]bool{"hi": true, "gasCap": true})
+	// one base fee: the EVM keeper hands out the fee market's value unmodified (the ante handler, the refund in the message
+	// server and the EVM configuration must price a transaction with the same number)
+	if fd := findMethod(keeper, "Keeper", "GetBaseFee"); fd != nil {
+		facts["evmGetBaseFeeReturns"] = returnExprs(fd)
+	} else {
+		fail("x/evm Keeper.GetBaseFee not found")
+	}
 	// refundGas
 	rg := findMethod(keeper, "StateTransition", "refundGas")
 	facts["refundGasCalls"] = callsIn(rg)
@@ -866,6 +873,13 @@ func evmKeeperFacts(keeper, vm, utils *packages.Package) {
 }
 
 func feemarketFacts(p *packages.Package) {
+	if p != nil {
+		if fd := findMethod(p, "Keeper", "GetBaseFee"); fd != nil {
+			facts["feemarketGetBaseFeeReturns"] = returnExprs(fd)
+		} else {
+			fail("x/feemarket Keeper.GetBaseFee not found")
+		}
+	}
 	fd := findMethod(p, "Keeper", "CalculateBaseFee")
 	if fd == nil {
 		fail("CalculateBaseFee not found")
